@@ -799,7 +799,7 @@ package formula
 //@   tags [C05,C03]
 //@   requires wfv(v1) && wfv(v2)
 //@   panics never
-//@   ensures result1 == nil
+//@   ensures result1 == nil && wfv(result0)
 //@   ensures[C05] num(v1) && num(v2) ==> result0 == mkbool(dcmp(nval(v1), nval(v2)) < 0)
 //@   ensures[C05] isstr(v1) && isstr(v2) ==> result0 == mkbool(sval(v1) < sval(v2))
 
@@ -807,7 +807,7 @@ package formula
 //@   tags [C05,C03]
 //@   requires wfv(v1) && wfv(v2)
 //@   panics never
-//@   ensures result1 == nil
+//@   ensures result1 == nil && wfv(result0)
 //@   ensures[C05] num(v1) && num(v2) ==> result0 == mkbool(dcmp(nval(v1), nval(v2)) > 0)
 //@   ensures[C05] isstr(v1) && isstr(v2) ==> result0 == mkbool(sval(v1) > sval(v2))
 
@@ -815,7 +815,7 @@ package formula
 //@   tags [C05,C03]
 //@   requires wfv(v1) && wfv(v2)
 //@   panics never
-//@   ensures result1 == nil
+//@   ensures result1 == nil && wfv(result0)
 //@   ensures[C05] num(v1) && num(v2) ==> result0 == mkbool(dcmp(nval(v1), nval(v2)) <= 0)
 //@   ensures[C05] isstr(v1) && isstr(v2) ==> result0 == mkbool(sval(v1) <= sval(v2))
 
@@ -823,7 +823,7 @@ package formula
 //@   tags [C05,C03]
 //@   requires wfv(v1) && wfv(v2)
 //@   panics never
-//@   ensures result1 == nil
+//@   ensures result1 == nil && wfv(result0)
 //@   ensures[C05] num(v1) && num(v2) ==> result0 == mkbool(dcmp(nval(v1), nval(v2)) >= 0)
 //@   ensures[C05] isstr(v1) && isstr(v2) ==> result0 == mkbool(sval(v1) >= sval(v2))
 
@@ -833,7 +833,7 @@ package formula
 //@   tags [C04,C03,C07]
 //@   requires wfv(v1) && wfv(v2)
 //@   panics never
-//@   ensures result1 == nil
+//@   ensures result1 == nil && wfv(result0)
 //@   ensures[C04] num(v1) && num(v2) ==> num(result0) && fresh(nref(result0)) && nref(result0).prec == 34 && nval(result0) == dadd(nval(v1), nval(v2), 34)
 //@   ensures isstr(v1) && isstr(v2) ==> result0 == mkstr(sval(v1) ++ sval(v2))
 
@@ -841,28 +841,28 @@ package formula
 //@   tags [C04,C03,C07]
 //@   requires wfv(v1) && wfv(v2)
 //@   panics never
-//@   ensures result1 == nil
+//@   ensures result1 == nil && wfv(result0)
 //@   ensures[C04] num(v1) && num(v2) ==> num(result0) && fresh(nref(result0)) && nref(result0).prec == 34 && nval(result0) == dsub(nval(v1), nval(v2), 34)
 
 //@ func (*Runner).resolveAsteriskBinaryExpressino
 //@   tags [C04,C03,C07]
 //@   requires wfv(v1) && wfv(v2)
 //@   panics never
-//@   ensures result1 == nil
+//@   ensures result1 == nil && wfv(result0)
 //@   ensures[C04] num(v1) && num(v2) ==> num(result0) && fresh(nref(result0)) && nref(result0).prec == 34 && nval(result0) == dmul(nval(v1), nval(v2), 34)
 
 //@ func (*Runner).resolveSlashBinaryExpression
 //@   tags [C04,C03,C07]
 //@   requires wfv(v1) && wfv(v2)
 //@   panics never
-//@   ensures result1 == nil
+//@   ensures result1 == nil && wfv(result0)
 //@   ensures[C04] num(v1) && num(v2) ==> num(result0) && fresh(nref(result0)) && nref(result0).prec == 34 && nval(result0) == dquo(nval(v1), nval(v2), 34)
 
 //@ func (*Runner).resolvePercentBinaryExpression
 //@   tags [C04,C03,C07]
 //@   requires wfv(v1) && wfv(v2)
 //@   panics never
-//@   ensures result1 == nil
+//@   ensures result1 == nil && wfv(result0)
 //@   ensures[C04] num(v1) && num(v2) ==> num(result0) && fresh(nref(result0)) && nref(result0).prec == 34 && nval(result0) == drem(nval(v1), nval(v2), 34)
 
 // Selection operators (C06) hand back one of their operands unchanged.
@@ -870,15 +870,23 @@ package formula
 //@   tags [C06,C03]
 //@   requires wfv(v1) && wfv(v2)
 //@   panics never
-//@   ensures result1 == nil
+//@   ensures result1 == nil && wfv(result0)
 //@   ensures[C06] result0 == (truthy(v1) ? v2 : v1)
 
 //@ func (*Runner).resolveBarBarBinaryExpression
 //@   tags [C06,C03]
 //@   requires wfv(v1) && wfv(v2)
 //@   panics never
-//@   ensures result1 == nil
+//@   ensures result1 == nil && wfv(result0)
 //@   ensures[C06] result0 == (truthy(v1) ? v1 : v2)
+
+//@ func (*Runner).resolveQuestionQuestionBinaryExpression
+//@   tags [C06,C03]
+//@   requires wfv(v1) && wfv(v2)
+//@   panics never
+//@   noalloc
+//@   ensures result1 == nil && wfv(result0)
+//@   ensures[C06] result0 == (isNullAny(v1) ? v2 : v1)
 
 //@ func (*Runner).resolveExclamationUnaryExpression
 //@   tags [C06,C03]
@@ -886,12 +894,14 @@ package formula
 //@   panics never
 //@   ensures[C06] (isbool(v) || num(v) || isnil(v)) ==> result1 == nil && result0 == mkbool(!truthy(v))
 //@   ensures result1 != nil ==> result0 == nil
+//@   ensures wfv(result0)
 
 //@ func (*Runner).resolveExclamationExclamationUnaryExpression
 //@   tags [C06,C03]
 //@   requires wfv(v)
 //@   panics never
 //@   ensures[C06] result1 == nil && result0 == mkbool(truthy(v))
+//@   ensures wfv(result0)
 
 // Equality (C05).
 //@ spec kind4(a any) bool := isNullAny(a) || isbool(a) || isstr(a) || (num(a) && !dnan(nval(a)))
@@ -909,6 +919,7 @@ package formula
 //@   requires wfv(v1) && wfv(v2)
 //@   panics never
 //@   ensures[C03] result1 != nil ==> result0 == nil
+//@   ensures wfv(result0)
 //@   ensures[C05] kind4(v1) && kind4(v2) && sameKind(v1, v2) ==> result1 == nil && result0 == mkbool(strictEq(v1, v2))
 
 //@ func (*Runner).resolveNotEqualsBinaryExpression
@@ -916,6 +927,7 @@ package formula
 //@   requires wfv(v1) && wfv(v2)
 //@   panics never
 //@   ensures[C03] result1 != nil ==> result0 == nil
+//@   ensures wfv(result0)
 //@   ensures[C05] kind4(v1) && kind4(v2) && sameKind(v1, v2) ==> result1 == nil && result0 == mkbool(!strictEq(v1, v2))
 
 //@ func (*Runner).resolveEqualsEqualsEqualsBinaryExpression
@@ -923,6 +935,7 @@ package formula
 //@   requires wfv(v1) && wfv(v2)
 //@   panics never
 //@   ensures[C03] result1 != nil ==> result0 == nil
+//@   ensures wfv(result0)
 //@   ensures[C05] kind4(v1) && kind4(v2) ==> result1 == nil && result0 == mkbool(strictEq(v1, v2))
 
 //@ func (*Runner).resolveNotEqualsEqualsBinaryExpression
@@ -930,6 +943,7 @@ package formula
 //@   requires wfv(v1) && wfv(v2)
 //@   panics never
 //@   ensures[C03] result1 != nil ==> result0 == nil
+//@   ensures wfv(result0)
 //@   ensures[C05] kind4(v1) && kind4(v2) ==> result1 == nil && result0 == mkbool(!strictEq(v1, v2))
 
 //@ func (*Runner).valueEqualTo
@@ -943,3 +957,257 @@ package formula
 //@   requires wfv(v1) && wfv(v2) && comparableAny(v1) && comparableAny(v2)
 //@   panics never
 //@   ensures[C05] kind4(v1) && kind4(v2) && sameKind(v1, v2) ==> result == strictEq(v1, v2)
+
+// ---------------------------------------------------------------------------
+// Evaluator: trees, evaluation order, frames
+// ---------------------------------------------------------------------------
+
+// treeok: a complete tree as the parser builds it: operands present, children older than
+// their parent (which makes evaluation a structural recursion). Nodes are never written
+// by the evaluator (no node field occurs in its assigns clauses).
+//@ spec sub(c Expression, parent Expression) bool := treeok(c) && refOf(c) < refOf(parent)
+//@ spec listok(l *NodeList[Expression], parent Expression) bool := l != nil ==> (forall i int :: 0 <= i && i < len(l.nodes) ==> sub(l.nodes[i], parent))
+//@ spec rec treeok(v Expression) bool := okx(v) && (is(v, *BinaryExpression) ? (as(v, *BinaryExpression).Operator != nil && sub(as(v, *BinaryExpression).Left, v) && sub(as(v, *BinaryExpression).Right, v)) : is(v, *PrefixUnaryExpression) ? (as(v, *PrefixUnaryExpression).Operator != nil && sub(as(v, *PrefixUnaryExpression).Operand, v)) : is(v, *ConditionalExpression) ? (sub(as(v, *ConditionalExpression).Condition, v) && sub(as(v, *ConditionalExpression).WhenTrue, v) && sub(as(v, *ConditionalExpression).WhenFalse, v)) : is(v, *ParenthesizedExpression) ? sub(as(v, *ParenthesizedExpression).Expression, v) : is(v, *TypeOfExpression) ? sub(as(v, *TypeOfExpression).Expression, v) : is(v, *SelectorExpression) ? (sub(as(v, *SelectorExpression).Expression, v) && as(v, *SelectorExpression).Name != nil) : is(v, *CallExpression) ? (sub(as(v, *CallExpression).Expression, v) && listok(as(v, *CallExpression).Arguments, v)) : is(v, *ArrayLiteralExpression) ? listok(as(v, *ArrayLiteralExpression).Elements, v) : true)
+
+// The evaluation log: r.world names the point in the sequence of evaluations; step/valOf/
+// errOf name "the world after", "the value of" and "the error of" evaluating a node at a
+// point. They are names, not definitions: resolve introduces them (defines), and the
+// contracts of the node evaluators say which evaluations happen, in which order, and
+// which of the named values is handed back (C06, C07, C11).
+//@ ghost field Runner.world : int
+//@ spec step(w int, v Expression) int
+//@ spec valOf(w int, v Expression) any
+//@ spec errOf(w int, v Expression) any
+//@ frame evalFrame(r *Runner) := r.world, r.this, all(r.this)
+// rpre: the runner's data holds no typed-nil numbers; rpost: additionally the data map is the
+// same map as before, or was created because there was none.
+//@ spec rpre(r *Runner) bool := r != nil && (forall k string :: wfv(r.this[k]))
+//@ spec rpost(r *Runner) bool := rpre(r) && (r.this == old(r.this) || (old(r.this) == nil && fresh(r.this)))
+
+//@ func (*Runner).resolve
+//@   tags [C03,C06,C07,C08,C16]
+//@   requires rpre(r) && treeok(v)
+//@   assigns evalFrame(r)
+//@   panics never
+//@   decreases refOf(v), 3
+//@   defines r.world == step(old(r.world), v) && res == valOf(old(r.world), v) && err == errOf(old(r.world), v)
+//@   ensures[C03] err != nil ==> res == nil
+//@   ensures wfv(res) && rpost(r)
+
+// Normalisation of Go values (C16, C04): int kinds exactly, floats through their shortest
+// decimal spelling, everything else unchanged.
+//@ func formatInput
+//@   tags [C16,C04,C03]
+//@   requires wfv(v)
+//@   panics never
+//@   ensures result1 == nil && wfv(result0)
+//@   ensures[C04,C16] is(v, int) ==> num(result0) && fresh(nref(result0)) && nref(result0).prec == 34 && nval(result0) == dvInt(as(v, int))
+//@   ensures[C04,C16] is(v, int32) ==> num(result0) && fresh(nref(result0)) && nref(result0).prec == 34 && nval(result0) == dvInt(as(v, int32))
+//@   ensures[C04,C16] is(v, int64) ==> num(result0) && fresh(nref(result0)) && nref(result0).prec == 34 && nval(result0) == dvInt(as(v, int64))
+//@   ensures[C04,C16] is(v, float64) ==> num(result0) && fresh(nref(result0)) && nref(result0).prec == 34 && nval(result0) == dvStr(fmtFloat(as(v, float64)))
+//@   ensures[C16] !is(v, int) && !is(v, int32) && !is(v, int64) && !is(v, float32) && !is(v, float64) ==> result0 == v
+
+//@ func try2Float64
+//@   tags [C04,C03]
+//@   requires wfv(v)
+//@   panics never
+//@   ensures[C04] num(v) ==> result == box(d2f(nval(v)), float64)
+//@   ensures !num(v) ==> result == v
+
+//@ func formatNilValue
+//@   tags [C16,C03]
+//@   panics never
+//@   ensures[C16] result == (isNullAny(v) ? nil : v)
+
+//@ func (*Runner).resolveIdentifier
+//@   tags [C16,C03,C10]
+//@   requires rpre(r) && expr != nil
+//@   panics never
+//@   noalloc
+//@   ensures result1 == nil && wfv(result0)
+//@   ensures[C16] result0 == (isBuiltin(mkstr(expr.Value)) ? builtinVal(mkstr(expr.Value)) : r.this[expr.Value])
+
+//@ func (*Runner).resolveLiteralExpression
+//@   tags [C12,C13,C04,C16,C03]
+//@   requires r != nil && expr != nil
+//@   panics never
+//@   ensures[C03] result1 != nil ==> result0 == nil
+//@   ensures wfv(result0)
+//@   ensures[C12,C04] expr.Token == SK_NumberLiteral && dvStrOK(expr.Value) ==> result1 == nil && num(result0) && fresh(nref(result0)) && nref(result0).prec == 34 && nval(result0) == dvStr(expr.Value)
+//@   ensures[C12] expr.Token == SK_NumberLiteral && !dvStrOK(expr.Value) ==> result1 != nil
+//@   ensures[C13] expr.Token == SK_StringLiteral ==> result1 == nil && result0 == mkstr(expr.Value)
+//@   ensures[C16] expr.Token == SK_ThisKeyword ==> result1 == nil && result0 == box(r.this, map[string]interface{})
+//@   ensures expr.Token == SK_TrueKeyword ==> result0 == mkbool(true)
+//@   ensures expr.Token == SK_FalseKeyword ==> result0 == mkbool(false)
+//@   ensures expr.Token == SK_NullKeyword ==> result0 == nil && result1 == nil
+
+// The conditional evaluates its condition and then exactly the selected branch (C06).
+//@ func (*Runner).resolveConditionalExpression
+//@   tags [C06,C03,C07]
+//@   requires rpre(r) && expr != nil && treeok(box(expr, *ConditionalExpression))
+//@   assigns evalFrame(r)
+//@   panics never
+//@   decreases expr, 2
+//@   ensures[C03] result1 != nil ==> result0 == nil
+//@   ensures wfv(result0) && rpost(r)
+//@   ensures[C06] errOf(old(r.world), expr.Condition) != nil ==> result1 != nil && r.world == step(old(r.world), expr.Condition)
+//@   ensures[C06] errOf(old(r.world), expr.Condition) == nil && truthy(valOf(old(r.world), expr.Condition)) ==> r.world == step(step(old(r.world), expr.Condition), expr.WhenTrue) && result1 == errOf(step(old(r.world), expr.Condition), expr.WhenTrue) && (result1 == nil ==> result0 == valOf(step(old(r.world), expr.Condition), expr.WhenTrue))
+//@   ensures[C06] errOf(old(r.world), expr.Condition) == nil && !truthy(valOf(old(r.world), expr.Condition)) ==> r.world == step(step(old(r.world), expr.Condition), expr.WhenFalse) && result1 == errOf(step(old(r.world), expr.Condition), expr.WhenFalse) && (result1 == nil ==> result0 == valOf(step(old(r.world), expr.Condition), expr.WhenFalse))
+
+//@ func (*Runner).resolveParenthesizedExpression
+//@   tags [C03,C07]
+//@   requires rpre(r) && expr != nil && treeok(box(expr, *ParenthesizedExpression))
+//@   assigns evalFrame(r)
+//@   panics never
+//@   decreases expr, 2
+//@   ensures[C03] result1 != nil ==> result0 == nil
+//@   ensures wfv(result0) && rpost(r)
+//@   ensures r.world == step(old(r.world), expr.Expression) && result1 == errOf(old(r.world), expr.Expression) && (result1 == nil ==> result0 == valOf(old(r.world), expr.Expression))
+
+//@ func (*Runner).resolveTypeofExpression
+//@   tags [C03]
+//@   requires rpre(r) && expr != nil && treeok(box(expr, *TypeOfExpression))
+//@   assigns evalFrame(r)
+//@   panics never
+//@   decreases expr, 2
+//@   ensures[C03] result1 != nil ==> result0 == nil
+//@   ensures wfv(result0) && rpost(r)
+//@   ensures r.world == step(old(r.world), expr.Expression)
+
+// Assignment (C07): only to a bare $-name; evaluates the right side once, binds it, yields it.
+//@ func (*Runner).resolveEqualBinaryExpression
+//@   tags [C07,C03,C20]
+//@   requires rpre(r) && treeok(left) && treeok(right)
+//@   assigns evalFrame(r)
+//@   panics never
+//@   decreases max(refOf(left), refOf(right)) + 1, 1
+//@   ensures wfv(result0) && rpost(r)
+//@   ensures[C07] !(is(left, *Identifier) && hasPrefix(as(left, *Identifier).Value, "$")) ==> result1 != nil && r.world == old(r.world) && r.this == old(r.this) && (forall k string :: r.this[k] == old(r.this[k]))
+//@   ensures[C07] is(left, *Identifier) && hasPrefix(as(left, *Identifier).Value, "$") ==> r.world == step(old(r.world), right) && result1 == errOf(old(r.world), right)
+//@   ensures[C07] is(left, *Identifier) && hasPrefix(as(left, *Identifier).Value, "$") && result1 == nil ==> result0 == valOf(old(r.world), right) && r.this != nil && r.this[as(left, *Identifier).Value] == result0
+
+// builtin table entries are proper values
+//@ axiom forall k any :: wfv(builtinVal(k))
+
+// stepN(w, l, n): the world after evaluating the first n elements of a list, in order.
+//@ spec rec stepN(w int, l *NodeList[Expression], n int) int := n <= 0 ? w : step(stepN(w, l, n-1), l.nodes[n-1])
+
+// Binary operators (C06, C07): left then right, exactly once each; selection operators hand
+// back an operand; every ladder operator is dispatched to its own evaluator with the
+// operands in source order.
+//@ func (*Runner).resolveBinaryExpression
+//@   tags [C06,C07,C03,C04,C05]
+//@   requires rpre(r) && expr != nil && treeok(box(expr, *BinaryExpression))
+//@   assigns evalFrame(r)
+//@   panics never
+//@   decreases expr, 2
+//@   ensures wfv(result0) && rpost(r)
+//@   ensures[C07] expr.Operator.Token != SK_Equals && errOf(old(r.world), expr.Left) != nil ==> result1 != nil && r.world == step(old(r.world), expr.Left)
+//@   ensures[C07] expr.Operator.Token != SK_Equals && errOf(old(r.world), expr.Left) == nil ==> r.world == step(step(old(r.world), expr.Left), expr.Right)
+//@   ensures[C07] expr.Operator.Token != SK_Equals && errOf(old(r.world), expr.Left) == nil && errOf(step(old(r.world), expr.Left), expr.Right) != nil ==> result1 != nil
+//@   ensures[C06] expr.Operator.Token == SK_AmpersandAmpersand && errOf(old(r.world), expr.Left) == nil && errOf(step(old(r.world), expr.Left), expr.Right) == nil ==> result1 == nil && result0 == (truthy(valOf(old(r.world), expr.Left)) ? valOf(step(old(r.world), expr.Left), expr.Right) : valOf(old(r.world), expr.Left))
+//@   ensures[C06] expr.Operator.Token == SK_BarBar && errOf(old(r.world), expr.Left) == nil && errOf(step(old(r.world), expr.Left), expr.Right) == nil ==> result1 == nil && result0 == (truthy(valOf(old(r.world), expr.Left)) ? valOf(old(r.world), expr.Left) : valOf(step(old(r.world), expr.Left), expr.Right))
+//@   ensures[C06] expr.Operator.Token == SK_QuestionQuestion && errOf(old(r.world), expr.Left) == nil && errOf(step(old(r.world), expr.Left), expr.Right) == nil ==> result1 == nil && result0 == (isNullAny(valOf(old(r.world), expr.Left)) ? valOf(step(old(r.world), expr.Left), expr.Right) : valOf(old(r.world), expr.Left))
+//@   ensures[C07] expr.Operator.Token == SK_Comma && errOf(old(r.world), expr.Left) == nil && errOf(step(old(r.world), expr.Left), expr.Right) == nil ==> result1 == nil && result0 == valOf(step(old(r.world), expr.Left), expr.Right)
+//@   at call (*Runner).resolveEqualBinaryExpression: assert[C07] expr.Operator.Token == SK_Equals && left == expr.Left && right == expr.Right
+//@   at call (*Runner).resolveLessThanBinaryExpressino: assert[C05] expr.Operator.Token == SK_LessThan && v1 == valOf(old(r.world), expr.Left) && v2 == valOf(step(old(r.world), expr.Left), expr.Right)
+//@   at call (*Runner).resolveGreaterThanBinaryExpressino: assert[C05] expr.Operator.Token == SK_GreaterThan && v1 == valOf(old(r.world), expr.Left) && v2 == valOf(step(old(r.world), expr.Left), expr.Right)
+//@   at call (*Runner).resolveLessThanEqualsBinaryExpressino: assert[C05] expr.Operator.Token == SK_LessThanEquals && v1 == valOf(old(r.world), expr.Left) && v2 == valOf(step(old(r.world), expr.Left), expr.Right)
+//@   at call (*Runner).resolveGreaterThanEqualsBinaryExpressino: assert[C05] expr.Operator.Token == SK_GreaterThanEquals && v1 == valOf(old(r.world), expr.Left) && v2 == valOf(step(old(r.world), expr.Left), expr.Right)
+//@   at call (*Runner).resolvePlusBinaryExpression: assert[C04] expr.Operator.Token == SK_Plus && v1 == valOf(old(r.world), expr.Left) && v2 == valOf(step(old(r.world), expr.Left), expr.Right)
+//@   at call (*Runner).resolveMinusBinaryExpressino: assert[C04] expr.Operator.Token == SK_Minus && v1 == valOf(old(r.world), expr.Left) && v2 == valOf(step(old(r.world), expr.Left), expr.Right)
+//@   at call (*Runner).resolveAsteriskBinaryExpressino: assert[C04] expr.Operator.Token == SK_Asterisk && v1 == valOf(old(r.world), expr.Left) && v2 == valOf(step(old(r.world), expr.Left), expr.Right)
+//@   at call (*Runner).resolveSlashBinaryExpression: assert[C04] expr.Operator.Token == SK_Slash && v1 == valOf(old(r.world), expr.Left) && v2 == valOf(step(old(r.world), expr.Left), expr.Right)
+//@   at call (*Runner).resolvePercentBinaryExpression: assert[C04] expr.Operator.Token == SK_Percent && v1 == valOf(old(r.world), expr.Left) && v2 == valOf(step(old(r.world), expr.Left), expr.Right)
+//@   at call (*Runner).resolveAmpersandBinaryExpression: assert[C18] expr.Operator.Token == SK_Ampersand && v1 == valOf(old(r.world), expr.Left) && v2 == valOf(step(old(r.world), expr.Left), expr.Right)
+//@   at call (*Runner).resolveBarBinaryExpression: assert[C18] expr.Operator.Token == SK_Bar && v1 == valOf(old(r.world), expr.Left) && v2 == valOf(step(old(r.world), expr.Left), expr.Right)
+//@   at call (*Runner).resolveCaretBinaryExpression: assert[C18] expr.Operator.Token == SK_Caret && v1 == valOf(old(r.world), expr.Left) && v2 == valOf(step(old(r.world), expr.Left), expr.Right)
+//@   at call (*Runner).resolveAmpersandAmpersandBinaryExpression: assert[C06] expr.Operator.Token == SK_AmpersandAmpersand && v1 == valOf(old(r.world), expr.Left) && v2 == valOf(step(old(r.world), expr.Left), expr.Right)
+//@   at call (*Runner).resolveBarBarBinaryExpression: assert[C06] expr.Operator.Token == SK_BarBar && v1 == valOf(old(r.world), expr.Left) && v2 == valOf(step(old(r.world), expr.Left), expr.Right)
+//@   at call (*Runner).resolveQuestionQuestionBinaryExpression: assert[C06] expr.Operator.Token == SK_QuestionQuestion && v1 == valOf(old(r.world), expr.Left) && v2 == valOf(step(old(r.world), expr.Left), expr.Right)
+//@   at call (*Runner).resolveEqualsEqualsBinaryExpression: assert[C05] expr.Operator.Token == SK_EqualsEquals && v1 == valOf(old(r.world), expr.Left) && v2 == valOf(step(old(r.world), expr.Left), expr.Right)
+//@   at call (*Runner).resolveNotEqualsBinaryExpression: assert[C05] expr.Operator.Token == SK_ExclamationEquals && v1 == valOf(old(r.world), expr.Left) && v2 == valOf(step(old(r.world), expr.Left), expr.Right)
+//@   at call (*Runner).resolveEqualsEqualsEqualsBinaryExpression: assert[C05] expr.Operator.Token == SK_EqualsEqualsEquals && v1 == valOf(old(r.world), expr.Left) && v2 == valOf(step(old(r.world), expr.Left), expr.Right)
+//@   at call (*Runner).resolveNotEqualsEqualsBinaryExpression: assert[C05] expr.Operator.Token == SK_ExclamationEqualsEquals && v1 == valOf(old(r.world), expr.Left) && v2 == valOf(step(old(r.world), expr.Left), expr.Right)
+
+// Bit operators (C18): on the truncated 64-bit integer values of the operands.
+//@ func (*Runner).resolveAmpersandBinaryExpression
+//@   tags [C18,C03]
+//@   requires wfv(v1) && wfv(v2)
+//@   panics never
+//@   ensures result1 == nil && wfv(result0)
+//@   ensures[C18] num(v1) && num(v2) ==> num(result0) && fresh(nref(result0)) && nval(result0) == dvF64(i2f(d2i(nval(v1)) & d2i(nval(v2))))
+
+//@ func (*Runner).resolveBarBinaryExpression
+//@   tags [C18,C03]
+//@   requires wfv(v1) && wfv(v2)
+//@   panics never
+//@   ensures result1 == nil && wfv(result0)
+//@   ensures[C18] num(v1) && num(v2) ==> num(result0) && fresh(nref(result0)) && nval(result0) == dvF64(i2f(d2i(nval(v1)) | d2i(nval(v2))))
+
+//@ func (*Runner).resolveCaretBinaryExpression
+//@   tags [C18,C03]
+//@   requires wfv(v1) && wfv(v2)
+//@   panics never
+//@   ensures result1 == nil && wfv(result0)
+//@   ensures[C18] num(v1) && num(v2) ==> num(result0) && fresh(nref(result0)) && nval(result0) == dvF64(i2f(d2i(nval(v1)) ^ d2i(nval(v2))))
+
+//@ func (*Runner).resolveCommaBinaryExpression
+//@   tags [C07]
+//@   panics never
+//@   noalloc
+//@   ensures result1 == nil && result0 == v2
+
+// Unary operators.
+//@ func (*Runner).resolvePrefixUnaryExpression
+//@   tags [C06,C18,C03]
+//@   requires rpre(r) && expr != nil && treeok(box(expr, *PrefixUnaryExpression))
+//@   assigns evalFrame(r)
+//@   panics never
+//@   decreases expr, 2
+//@   ensures[C03] result1 != nil ==> result0 == nil
+//@   ensures wfv(result0) && rpost(r)
+//@   ensures r.world == step(old(r.world), expr.Operand)
+//@   ensures errOf(old(r.world), expr.Operand) != nil ==> result1 != nil
+//@   at call (*Runner).resolveExclamationUnaryExpression: assert[C06] expr.Operator.Token == SK_Exclamation && v == valOf(old(r.world), expr.Operand)
+//@   at call (*Runner).resolveExclamationExclamationUnaryExpression: assert[C06] expr.Operator.Token == SK_ExclamationExclamation && v == valOf(old(r.world), expr.Operand)
+//@   at call (*Runner).resolveTildeUnaryExpression: assert[C18] expr.Operator.Token == SK_Tilde && v == valOf(old(r.world), expr.Operand)
+//@   at call (*Runner).resolveMinusUnaryExpression: assert expr.Operator.Token == SK_Minus && v == valOf(old(r.world), expr.Operand)
+//@   at call (*Runner).resolvePlusUnaryExpression: assert expr.Operator.Token == SK_Plus && v == valOf(old(r.world), expr.Operand)
+
+//@ func (*Runner).resolvePlusUnaryExpression
+//@   tags [C03]
+//@   requires wfv(v)
+//@   panics never
+//@   ensures wfv(result0) && (result1 != nil ==> result0 == nil)
+//@   ensures num(v) ==> result0 == v && result1 == nil
+
+//@ func (*Runner).resolveMinusUnaryExpression
+//@   tags [C03,C04]
+//@   requires wfv(v)
+//@   panics never
+//@   ensures wfv(result0) && (result1 != nil ==> result0 == nil)
+//@   ensures[C04] num(v) ==> result1 == nil && num(result0) && fresh(nref(result0)) && nval(result0) == dneg(nval(v))
+
+//@ func (*Runner).resolveTildeUnaryExpression
+//@   tags [C18,C03]
+//@   requires wfv(v)
+//@   panics never
+//@   ensures wfv(result0) && (result1 != nil ==> result0 == nil)
+//@   ensures[C18] num(v) ==> result1 == nil && num(result0) && fresh(nref(result0)) && nval(result0) == dvInt(-d2i(nval(v)) - 1)
+
+// Array literals (C07): elements left to right, once each.
+//@ func (*Runner).resolveArrayLiteralExpression
+//@   tags [C07,C03]
+//@   requires rpre(r) && expr != nil && treeok(box(expr, *ArrayLiteralExpression))
+//@   assigns evalFrame(r)
+//@   panics never
+//@   decreases expr, 2
+//@   ensures[C03] result1 != nil ==> result0 == nil
+//@   ensures wfv(result0) && rpost(r)
+//@   ensures[C07] result1 == nil && expr.Elements != nil ==> r.world == stepN(old(r.world), expr.Elements, len(expr.Elements.nodes)) && is(result0, []interface{}) && len(as(result0, []interface{})) == len(expr.Elements.nodes)
+//@   ensures[C07] result1 == nil && expr.Elements != nil ==> (forall j int :: 0 <= j && j < len(expr.Elements.nodes) ==> as(result0, []interface{})[j] == valOf(stepN(old(r.world), expr.Elements, j), expr.Elements.nodes[j]))
+//@   loop 1: invariant rpre(r) && (r.this == old(r.this) || (old(r.this) == nil && fresh(r.this))) && expr.Elements != nil && 0 <= i && i <= len(expr.Elements.nodes) && len(list) == i
+//@           invariant[C07] r.world == stepN(old(r.world), expr.Elements, i)
+//@           invariant[C07] forall j int :: 0 <= j && j < i ==> list[j] == valOf(stepN(old(r.world), expr.Elements, j), expr.Elements.nodes[j])
+//@           decreases len(expr.Elements.nodes) - i
